@@ -16,6 +16,8 @@ type listInst struct {
 	by    *listInst // a second, unrelated instance of the same configuration that is put through the same calls in turn
 	tok   int       // fresh-token counter
 	shape string    // listCfg.Tok
+	// toggles: the index options are switched while the history runs (machines where an error can be on record)
+	toggles bool
 }
 
 type tokStruct struct{ Names []string }
@@ -52,6 +54,9 @@ type listCfg struct {
 	Tok string `json:"element_shape,omitempty"`
 	// PolRej: the push policy rejects every third fresh token, each time with the very same error value
 	PolRej bool `json:"push_policy_rejects_every_third,omitempty"`
+	// PolSelf: the push policy consults the stack it guards (its current length and last element) before it
+	// answers: values of one Push call arrive "one value at a time", each judged against what is there by then
+	PolSelf bool `json:"push_policy_consults_own_stack,omitempty"`
 }
 
 func (c listCfg) String() string {
@@ -73,6 +78,9 @@ func (c listCfg) String() string {
 	}
 	if c.PolRej {
 		s += " policy-rejects-every-third"
+	}
+	if c.PolSelf {
+		s += " policy-consults-own-stack"
 	}
 	return s
 }
@@ -124,10 +132,36 @@ func (c listCfg) build() *listInst {
 		})
 		m.reject = rej
 	}
+	if c.PolSelf {
+		// turn a value away when its number plus the number of elements present is a multiple of three, or
+		// when it is the very value that now comes last
+		tokNum := func(v any) int {
+			var n int
+			if str, ok := v.(string); ok {
+				fmt.Sscanf(str, "t%d", &n)
+			}
+			return n
+		}
+		s.SetPushPolicy(func(x ...any) error {
+			if last, ok := s.Index(s.Len() - 1); ok && last != nil && !diffAny(last, x[0]) {
+				return errCat
+			}
+			if (tokNum(x[0])+s.Len())%3 == 0 {
+				return errCat
+			}
+			return nil
+		})
+		m.reject = func(v any) bool {
+			if n := len(m.items); n > 0 && m.items[n-1] != nil && !diffAny(m.items[n-1], v) {
+				return true
+			}
+			return (tokNum(v)+len(m.items))%3 == 0
+		}
+	}
 	if c.Deco {
 		decorate(s).SetErr(errCat).SetValidityPolicy(func(...any) error { return errCat })
 	}
-	in := &listInst{s: s, m: m, shape: c.Tok}
+	in := &listInst{s: s, m: m, shape: c.Tok, toggles: c.PolRej || c.PolSelf || c.Deco}
 	if c.Prefill > 0 {
 		vals := make([]any, c.Prefill)
 		for i := range vals {
@@ -193,6 +227,17 @@ func c01Ops(maxL int) []listOp {
 					in.s.SetFIFO(true)
 				}
 			}
+			return ""
+		}},
+		listOp{"SetNegativeIndices(the other way)", 0, func(in *listInst, _ int) bool { return in.toggles }, func(in *listInst) string {
+			// options are settings, not content operations: an error on record has no say in them
+			in.m.neg = !in.m.neg
+			in.s.SetNegativeIndices(in.m.neg)
+			return ""
+		}},
+		listOp{"SetForwardIndices(the other way)", 0, func(in *listInst, _ int) bool { return in.toggles }, func(in *listInst) string {
+			in.m.fwd = !in.m.fwd
+			in.s.SetForwardIndices(in.m.fwd)
 			return ""
 		}},
 		listOp{"Push()", 0, always, func(in *listInst) string {
@@ -446,15 +491,15 @@ func c01Configs(c *Ctx) []listCfg {
 						if cp > 0 {
 							ml = cp + 1 // growth is attempted on a full stack too: the model drops the surplus
 						}
-						out = append(out, listCfg{k, fifo, cp, neg, fwd, ml, false, false, false, 0, "", false})
+						out = append(out, listCfg{k, fifo, cp, neg, fwd, ml, false, false, false, 0, "", false, false})
 						if neg == fwd {
-							out = append(out, listCfg{k, fifo, cp, neg, fwd, ml, neg, false, true, 0, "", false})
+							out = append(out, listCfg{k, fifo, cp, neg, fwd, ml, neg, false, true, 0, "", false, false})
 						}
 						if !neg && !fwd {
 							// the same histories through the locking paths and the push-policy path
-							out = append(out, listCfg{k, fifo, cp, neg, fwd, ml, true, false, false, 0, "", false}, listCfg{k, fifo, cp, neg, fwd, ml, true, true, false, 0, "", false})
+							out = append(out, listCfg{k, fifo, cp, neg, fwd, ml, true, false, false, 0, "", false, false}, listCfg{k, fifo, cp, neg, fwd, ml, true, true, false, 0, "", false, false})
 							if !c.Quick() {
-								out = append(out, listCfg{k, fifo, cp, neg, fwd, ml, false, true, false, 0, "", false})
+								out = append(out, listCfg{k, fifo, cp, neg, fwd, ml, false, true, false, 0, "", false, false})
 							}
 						}
 					}
@@ -482,6 +527,16 @@ func c01Configs(c *Ctx) []listCfg {
 			out = append(out, listCfg{Kind: kindNames[ml%5], FIFO: fifo, Cap: cp, MaxL: ml, PolRej: true}, listCfg{Kind: "LIST", FIFO: fifo, Cap: cp, MaxL: ml, PolRej: true, Mtx: true, Neg: true})
 		}
 	}
+	// ... and one that looks at the stack it guards before it answers
+	for _, fifo := range []bool{false, true} {
+		for _, cp := range []int{0, capk} {
+			ml := maxL
+			if cp > 0 {
+				ml = cp + 1
+			}
+			out = append(out, listCfg{Kind: kindNames[(ml+1)%5], FIFO: fifo, Cap: cp, MaxL: ml, PolSelf: true})
+		}
+	}
 	// element values Go's == cannot compare (slices, maps, structs holding one): the list operations must
 	// not care what an element is
 	for i, tok := range []string{"slice", "map", "struct"} {
@@ -490,7 +545,7 @@ func c01Configs(c *Ctx) []listCfg {
 	}
 	// capacities at the edge of int (the stored limit is k+1): the stack must simply never fill up
 	for _, cp := range []int{math.MaxInt, math.MaxInt - 1, 1 << 32, -1, -2, -7, math.MinInt} {
-		out = append(out, listCfg{"LIST", false, cp, false, false, 2, false, false, false, 0, "", false}, listCfg{"OR", true, cp, true, true, 2, false, true, false, 0, "", false})
+		out = append(out, listCfg{"LIST", false, cp, false, false, 2, false, false, false, 0, "", false, false}, listCfg{"OR", true, cp, true, true, 2, false, true, false, 0, "", false, false})
 	}
 	return out
 }
